@@ -13,6 +13,9 @@ import (
 	"slices"
 	"testing"
 
+	"github.com/emirpasic/gods/v2/maps/hashbidimap"
+	"github.com/emirpasic/gods/v2/maps/hashmap"
+	"github.com/emirpasic/gods/v2/maps/linkedhashmap"
 	"github.com/emirpasic/gods/v2/maps/treemap"
 	"github.com/emirpasic/gods/v2/trees/avltree"
 	"github.com/emirpasic/gods/v2/trees/btree"
@@ -164,6 +167,104 @@ func genFloat(kind string) func(t *rapid.T) FCase {
 			}
 		}
 		return c
+	}
+}
+
+// Hash-backed maps with float64 keys: Go's == never equates NaN with itself, so
+// the Get sentence cannot be stated for NaN keys there; what CAN be stated for
+// every key type is the Clear clause — after Clear the map is empty and stays
+// consistent — and the full map behaviour on the non-NaN keys.
+type HCase struct {
+	Kind string `json:"kind"` // hashmap | linkedhashmap | hashbidimap
+	Ops  []FOp  `json:"ops"`
+}
+
+type hkv interface {
+	Put(k float64, v int)
+	Get(k float64) (int, bool)
+	Remove(k float64)
+	Clear()
+	Size() int
+	Empty() bool
+	Keys() []float64
+	Values() []int
+}
+
+func checkHashFloat(c HCase) (pbt.Info, error) {
+	var info pbt.Info
+	var box hkv
+	switch c.Kind {
+	case "hashmap":
+		box = hashmap.New[float64, int]()
+	case "linkedhashmap":
+		box = linkedhashmap.New[float64, int]()
+	case "hashbidimap":
+		box = hashbidimap.New[float64, int]()
+	default:
+		return info, fmt.Errorf("bad kind %q", c.Kind)
+	}
+	model := map[float64]int{} // non-NaN keys only (== is an equivalence there; -0 == +0)
+	nanPuts, cleared := 0, false
+	for i, op := range c.Ops {
+		k := floatDomain[((op.K%len(floatDomain))+len(floatDomain))%len(floatDomain)]
+		switch op.O {
+		case "put":
+			if math.IsNaN(k) {
+				nanPuts++
+			} else {
+				model[k] = op.V
+			}
+			box.Put(k, op.V)
+		case "rem":
+			if !math.IsNaN(k) {
+				delete(model, k)
+			}
+			box.Remove(k)
+		case "clear":
+			box.Clear()
+			model = map[float64]int{}
+			if nanPuts > 0 {
+				cleared = true
+			}
+			nanPuts = 0
+			if box.Size() != 0 || !box.Empty() || len(box.Keys()) != 0 || len(box.Values()) != 0 {
+				return info, fmt.Errorf("%s[float64,int] step %d: after Clear() Size()=%d Empty()=%v Keys()=%v", c.Kind, i, box.Size(), box.Empty(), box.Keys())
+			}
+		default:
+			continue
+		}
+		if c.Kind == "hashbidimap" {
+			continue // values collide freely here; the bidi rules are C10's subject
+		}
+		for _, probe := range floatDomain {
+			if math.IsNaN(probe) {
+				continue
+			}
+			wv, wok := model[probe]
+			if v, ok := box.Get(probe); ok != wok || v != wv {
+				return info, fmt.Errorf("%s[float64,int] step %d %s(%v): Get(%v) = (%d,%v), want (%d,%v)", c.Kind, i, op.O, k, probe, v, ok, wv, wok)
+			}
+		}
+		if nanPuts == 0 && box.Size() != len(model) {
+			return info, fmt.Errorf("%s[float64,int] step %d %s(%v): Size()=%d, model has %d keys (no NaN key since the last Clear)", c.Kind, i, op.O, k, box.Size(), len(model))
+		}
+	}
+	info.NonTrivial = cleared
+	return info, nil
+}
+
+func genHashFloat(kind string) func(t *rapid.T) HCase {
+	inner := genFloat("treemap")
+	return func(t *rapid.T) HCase {
+		fc := inner(t)
+		// values must be unique per put for the bidi kind: they already are (renumbered)
+		return HCase{Kind: kind, Ops: fc.Ops}
+	}
+}
+
+func TestHashKindsFloatKeysClear(t *testing.T) {
+	for _, kind := range []string{"hashmap", "linkedhashmap", "hashbidimap"} {
+		pbt.Run(t, pbt.Target[HCase]{Name: kind + "/float64-keys-clear", Checks: 4000, Gen: genHashFloat(kind), Check: checkHashFloat})
 	}
 }
 
